@@ -773,7 +773,15 @@ pub fn run(ctx: &Ctx) -> i32 {
             let h = if crowd { gen_crowd(r) } else if counter { gen_counter(r) } else if marathon { gen_marathon(r) } else { gen_history(r, kind, timed) };
             let kind = h.kind;
             slot.begin(|| format!("tracker history #{i} kind {kind}"));
-            let planes = run_history(&ctx.g, col, &h, usize::MAX);
+            // every eighth history with logging switched on (the log lines' arguments are code too)
+            let planes = if i % 8 == 5 {
+                let p = crate::logsub::with_logging(|| run_history(&ctx.g, col, &h, usize::MAX));
+                col.count("log_events_formatted", crate::logsub::take_events());
+                col.count("histories_with_logging", 1);
+                p
+            } else {
+                run_history(&ctx.g, col, &h, usize::MAX)
+            };
             let has_rel = h.ops.iter().any(|o| matches!(o, Op::ReceiverRel { .. }));
             if !timed && !has_rel {
                 if let Some((p, n)) = &planes {
